@@ -20,7 +20,7 @@ for pid, text, ref in [
   ("C06", "Every history with up to the depth bound of waiting jobs, cancels, failures and graph errors is executed; at every start no earlier-accepted job of the pipeline may still wait.", "3/C06"),
   ("C07", "Bursts and clock advances at every spacing of the alphabet are executed under a virtual clock; start >= created + delay exactly, promptness at quiescent states, and the debounce rules of the replace strategy are checked.", "3/C07"),
   ("C15", "At every reachable state the pipeline listing is compared with the outcome of an actual schedule request issued in that state and with the running jobs; timestamp ordering is checked on every job.", "3/C15"),
-  ("C16", "Reload events at every point of every history over an alphabet of single-aspect definition changes; what each job's task runner receives must equal the definition in force when the job was accepted; no job may be stranded or touched by a reload.", "3/C16"),
+  ("C16", "Reload events at every point of every history over an alphabet of single-aspect definition changes; what each job's task runner receives must equal the definition in force when the job was accepted; no job may be stranded or touched by a reload. An additional free-running unit drives the real binary through all 24 reload histories over three definitions (SIGUSR1) and checks the tasks of jobs accepted afterwards.", "3/C16"),
 ]:
     CHECKS[pid] = dict(engine="RMC", category="model_checking", technique=X2T, text=text, design=ref, note=RMC_NOTE)
 
@@ -34,7 +34,7 @@ CHECKS["C13"] = dict(engine="RMC", category="model_checking", technique="statele
   note=RMC_NOTE+" The race detector only judges accesses that the scenarios perform. Hand-offs of the controlled scheduler are spins in //go:norace code; harness and shim packages are compiled without race instrumentation; reports during teardown of an execution are discarded.")
 
 CHECKS["C11"] = dict(engine="RMC", category="model_checking", technique=X1T+"; virtual clock; recording data store",
-  text="Shutdown (graceful, and forced with the context cancelled at every point) is explored from nine prefix states, alone and racing with schedule / cancel / save, up to the deviation bound; at return and at the end a monitor checks terminal jobs, no executing task, store == reported state, the admission gate, and the graceful/forced semantics; a separate scenario checks that the 3s persist loop stores every accepted change without an explicit save.", design="3/C11", note=RMC_NOTE)
+  text="Shutdown (graceful, and forced with the context cancelled at every point) is explored from nine prefix states, alone and racing with schedule / cancel / save, up to the deviation bound; at return and at the end a monitor checks terminal jobs, no executing task, store == reported state, the admission gate, and the graceful/forced semantics; a separate scenario checks that the 3s persist loop stores every accepted change without an explicit save. An additional free-running unit sends SIGINT / SIGTERM to the real binary in three states and inspects exit, surviving processes and data.json.", design="3/C11", note=RMC_NOTE)
 
 CHECKS["C09"] = dict(engine="CRASHFS", category="fault_enumeration", technique="exhaustive crash-point and fault enumeration on the real JsonDataStore over an intercepted file-system layer; exhaustive interleaving exploration (controlled scheduler) of two concurrent savers",
   text="For histories of 1-3 saves over four snapshot sizes the real Save runs on a real directory through a recording os shim; at every completed call and at cut points inside every write the directory is inspected as a restarted process would see it: data.json absent (only before the first save) or loadable and equal to a snapshot it may hold then. Each call of a further save is made to fail once. Two concurrent savers are run under every interleaving of their calls.", design="3/C09",
@@ -48,7 +48,7 @@ CHECKS["C14"] = dict(engine="HTTPX", category="model_checking", technique="exhau
   text="Every route and method registered in the real chi router (walked, so new routes are included) is requested with 14 classes of invalid credentials over header, cookie and both, with profiling on and off, on a fresh server and after a legitimate request via header or cookie: status must be 401, the body must reveal nothing, and the state of a live runner with a running job must be unchanged; unregistered method/slash variants must neither succeed nor act; a valid token is the vacuity control.", design="3/C14",
   note="Exhaustive over the stated finite product; served in-process through the http.Handler; JWT library clock not controlled (expiry classes use +-1h).")
 CHECKS["C17"] = dict(engine="DEFX", category="model_checking", technique="bounded exhaustive input enumeration: validation grid rendered to YAML and loaded under every map iteration order, file-set layouts, and all ordered pairs of per-kind value grids for every struct field discovered by reflection, against a reference validator / reference equality",
-  text="1024 definitions (concurrency x queue_limit x start_delay x strategy x depends_on) are rendered to YAML and loaded under every permutation of map iteration order: load fails iff the reference validator says invalid, otherwise the result equals what was written (default concurrency 1); file layouts and duplicate names; Equals is compared with reference equality for every field (by reflection; unknown kinds abort) over all ordered pairs of a value grid.", design="3/C17",
+  text="1024 definitions (concurrency x queue_limit x start_delay x strategy x depends_on) are rendered to YAML and loaded under every permutation of map iteration order: load fails iff the reference validator says invalid, otherwise the result equals what was written (default concurrency 1); file layouts and duplicate names; Equals is compared with reference equality for every field (by reflection; unknown kinds abort) over all ordered pairs of a value grid. Additional free-running units rewrite the definition file of the real binary with every single-field edit of the same grids and check that the reload (SIGUSR1) classifies it exactly as changed / unchanged / invalid.", design="3/C17",
   note="Bounded by the value grids. Map iteration order inside the definition package is owned through the instrumenter's range-over-map rewrite.")
 
 PROCX_NOTE = "Real processes: the kernel / Go runtime schedule is not owned by the checker; exhaustive only over the stated input grammar. The runner is built exactly like app.go's closure."
@@ -73,6 +73,7 @@ m = {
    "add_only": True,
  },
  "engines": [
+   {"name": "APPX", "path": "engine/appx.go", "serves_properties": ["C11", "C16", "C17"], "kind_free_text": "the real prunner binary driven over exhaustive reload histories / single-field edits (SIGUSR1, log-line oracle) and shutdown signals; schedule not owned"},
    {"name": "PROCX", "path": "engine/procx.go", "serves_properties": ["C18", "C19", "C20"], "kind_free_text": "grammar enumeration on the real TaskRunner with real processes (schedule not owned)"},
    {"name": "HTTPX", "path": "engine/httpx.go", "serves_properties": ["C14"], "kind_free_text": "finite-product enumeration against the real HTTP handler"},
    {"name": "DEFX", "path": "engine/defx.go", "serves_properties": ["C17"], "kind_free_text": "bounded exhaustive inputs for loader / validator / Equals"},
